@@ -127,10 +127,18 @@ func main() {
 	seed := flag.Uint64("seed", 1, "")
 	n := flag.Int("n", 2000, "")
 	out := flag.String("out", "c33.trace", "")
+	mode := flag.String("mode", "stub", "stub: generated populations behind a stub PosKeeper; keeper: populations reached through the real x/nodes keeper")
 	flag.Parse()
 	r := gen.New(*seed)
 	t := gen.NewTrace(*out)
 	codec.TestMode = 0
+	if *mode == "keeper" {
+		for t.Lines < *n {
+			keeperCase(r, t)
+		}
+		t.Close(map[string]interface{}{"mode": "keeper"})
+		return
+	}
 	for i := 0; i < *n; i++ {
 		one(r, t)
 	}
